@@ -334,6 +334,11 @@ int yr_rules_from_arena(YR_ARENA* arena, YR_RULES** rules)
   if (summary == NULL)
     return ERROR_CORRUPT_FILE;
 
+  // The summary is the last buffer of a compiled rules file, if its size is
+  // not the size of a YR_SUMMARY the file has been damaged.
+  if (arena->buffers[YR_SUMMARY_SECTION].used != sizeof(YR_SUMMARY))
+    return ERROR_CORRUPT_FILE;
+
   YR_RULES* new_rules = (YR_RULES*) yr_malloc(sizeof(YR_RULES));
 
   if (new_rules == NULL)
